@@ -296,19 +296,14 @@ func (d *Decoder) Decode() (*Message, error) {
 	// Add source IP address as Agent ID
 	msg.AgentID = d.raddr.String()
 
-	// Decode the Flows
-	var decodeErrors []error
+	// Decode the Flows; a packet that does not carry the flows it
+	// announces is not decoded
 	flowCount := int(msg.Header.Count)
 	if err := d.decodeFlows(flowCount, msg); err != nil {
-		switch err.(type) {
-		case nonfatalError:
-			decodeErrors = append(decodeErrors, err)
-		default:
-			return nil, err
-		}
+		return nil, err
 	}
 
-	return msg, combineErrors(decodeErrors...)
+	return msg, nil
 
 }
 
